@@ -327,7 +327,7 @@ impl<'a> Gen<'a> {
         let pc = self.plain_classes();
         let mut parent_txt = vec![];
         if !pc.is_empty() && self.rng.chance(1, 2) {
-            let np = if pc.len() >= 2 && self.rng.chance(1, 3) { 2 } else { 1 };
+            let np = if pc.len() >= 3 && self.rng.chance(1, 6) { 3 } else if pc.len() >= 2 && self.rng.chance(2, 5) { 2 } else { 1 };
             let mut cands = pc.clone();
             self.rng.shuffle(&mut cands);
             for &p in cands.iter().take(np) {
@@ -365,7 +365,19 @@ impl<'a> Gen<'a> {
         let mut member_lines: Vec<(bool, String)> = vec![];
         for _ in 0..nf {
             let t = self.prim();
-            let n = self.fresh("f");
+            // sometimes reuse the name of a field of an earlier class (with whatever type comes
+            // up): a later class that has both as parents then inherits a clashing member
+            let earlier: Vec<String> = self
+                .plain_classes()
+                .into_iter()
+                .flat_map(|c| self.classes[c].fields.iter().map(|(n, _)| n.clone()).collect::<Vec<_>>())
+                .filter(|n| !info.fields.iter().any(|(m, _)| m == n))
+                .collect();
+            let n = if !self.fenced.contains("multi_parent_member_clash") && !earlier.is_empty() && self.rng.chance(1, 5) {
+                self.rng.pick(&earlier).clone()
+            } else {
+                self.fresh("f")
+            };
             let l = self.lit(&t);
             member_lines.push((false, format!("    def {}: {} := {}", n, self.ty_name(&t), l)));
             info.fields.push((n, t));
@@ -563,6 +575,120 @@ impl<'a> Gen<'a> {
         self.funs.push(FunInfo { name, params, ret, raises: vec![] });
     }
 
+    /// `{T1, T2[, T3]}` with distinct members
+    fn union_ty(&mut self) -> (String, Vec<Ty>) {
+        let n = self.rng.range(2, 3) as usize;
+        let mut tys: Vec<Ty> = vec![];
+        for _ in 0..12 {
+            let t = self.any_ty();
+            if !tys.contains(&t) {
+                tys.push(t);
+            }
+            if tys.len() == n {
+                break;
+            }
+        }
+        if tys.len() < 2 {
+            tys = vec![Ty::Int, Ty::Str];
+        }
+        let names: Vec<String> = tys.iter().map(|t| self.ty_name(t)).collect();
+        (format!("{{{}}}", names.join(", ")), tys)
+    }
+
+    /// a function whose parameter and/or return type is a written union, and maybe a call
+    fn gen_union_sig_function(&mut self) {
+        let name = self.fresh("ufn");
+        let (pt, ptys) = self.union_ty();
+        let (rt, rtys) = self.union_ty();
+        let p = self.fresh("p");
+        let body = self.lit(&rtys[0]);
+        match self.rng.below(3) {
+            0 => self.out.push_str(&format!("def {name}({p}: {pt}) -> {rt} => {body}\n\n")),
+            1 => self.out.push_str(&format!("def {name}({p}: {pt}) -> {} => {}\n\n", self.ty_name(&rtys[0]), body)),
+            _ => {
+                let q = self.fresh("p");
+                let qt = self.prim();
+                self.out.push_str(&format!("def {name}({q}: {}) -> {rt} => {body}\n\n", self.ty_name(&qt)));
+                if self.rng.chance(1, 2) {
+                    let v = self.fresh("v");
+                    let a = self.lit(&qt);
+                    self.out.push_str(&format!("def {v} := {name}({a})\n"));
+                }
+                return;
+            }
+        }
+        if self.rng.chance(1, 2) {
+            let v = self.fresh("v");
+            let k = self.rng.below(ptys.len() as u64) as usize;
+            let a = self.lit(&ptys[k]);
+            self.out.push_str(&format!("def {v} := {name}({a})\n"));
+        }
+    }
+
+    /// unions whose members share a class name and differ in generics or nullability:
+    /// lists / sets / tuples of different element types, `{T, T?}`
+    fn gen_same_class_union(&mut self, v: &str) {
+        let mut prims = vec![Ty::Int, Ty::Str, Ty::Bool, Ty::Float];
+        self.rng.shuffle(&mut prims);
+        let n = self.rng.range(2, 3) as usize;
+        let coll = |g: &mut Self, t: &Ty, kind: u64| -> String {
+            let items: Vec<String> = (0..g.rng.range(1, 2)).map(|_| g.lit(t)).collect();
+            match kind {
+                0 => format!("[{}]", items.join(", ")),
+                1 => format!("{{ {} }}", items.join(", ")),
+                _ => {
+                    let other = g.lit(&Ty::Int);
+                    format!("({}, {})", items[0], other)
+                }
+            }
+        };
+        let kind = self.rng.below(3);
+        let arms: Vec<String> = (0..n).map(|i| coll(self, &prims[i].clone(), kind)).collect();
+        match self.rng.below(4) {
+            0 => {
+                let c = self.cond();
+                self.out.push_str(&format!("def {v} := if {c} then {} else {}\n", arms[0], arms[1]));
+            }
+            1 => {
+                let scrut = self.leaf(&Ty::Int);
+                self.out.push_str(&format!("def {v} := match {scrut}\n"));
+                for (i, a) in arms.iter().enumerate() {
+                    if i + 1 == arms.len() {
+                        self.out.push_str(&format!("    _ => {a}\n"));
+                    } else {
+                        self.out.push_str(&format!("    {} => {a}\n", i + 1));
+                    }
+                }
+            }
+            2 => {
+                // written union of generic instantiations in a signature
+                let cname = *self.rng.pick(&["List", "Set"]);
+                let tys: Vec<String> = (0..n).map(|i| format!("{}[{}]", cname, self.ty_name(&prims[i]))).collect();
+                let u = format!("{{{}}}", tys.join(", "));
+                let f = self.fresh("ufn");
+                let p = self.fresh("p");
+                if self.rng.chance(1, 2) {
+                    self.out.push_str(&format!("def {f}({p}: {u}) -> {u} => {p}\n"));
+                } else {
+                    self.out.push_str(&format!("def {f}({p}: {u}) => print(\"{}\")\n", self.rng.pick(WORDS)));
+                }
+            }
+            _ => {
+                // T and T? in one union
+                let t = self.ty_name(&prims[0]);
+                let l = self.lit(&prims[0].clone());
+                match self.rng.below(2) {
+                    0 => self.out.push_str(&format!("def {v}: {{{t}, {t}?}} := {l}\n")),
+                    _ => {
+                        let f = self.fresh("ufn");
+                        let p = self.fresh("p");
+                        self.out.push_str(&format!("def {f}({p}: {{{t}, {t}?}}) -> {{{t}, {t}?}} => {p}\n"));
+                    }
+                }
+            }
+        }
+    }
+
     fn two_distinct_types(&mut self) -> (Ty, Ty) {
         let a = self.any_ty();
         for _ in 0..8 {
@@ -577,7 +703,15 @@ impl<'a> Gen<'a> {
 
     fn gen_toplevel(&mut self) {
         let v = self.fresh("v");
-        match self.rng.below(16) {
+        match self.rng.below(21) {
+            18 | 19 | 20 => self.gen_same_class_union(&v),
+            16 => {
+                let (ut, tys) = self.union_ty();
+                let k = self.rng.below(tys.len() as u64) as usize;
+                let e = self.expr(&tys[k], 1);
+                self.out.push_str(&format!("def {v}: {ut} := {e}\n"));
+            }
+            17 => self.gen_union_sig_function(),
             0 | 1 => {
                 let pc = self.plain_classes();
                 if pc.is_empty() {
